@@ -527,6 +527,14 @@ def s4_custody(F, R, M, roles, rule='S4', only=None):
                         if occupied:
                             good = False
                             det = 'the buffer is stored on the path where the slot of the new token is already occupied (and refused when it is free)'
+                    elif d[0] == 'call' and d[2].rsplit('::', 1)[-1] in ('is_some', 'is_none') and adds and slot:
+                        # an occupancy test of the buffer table that does not look at the slot of the new token (e.g. the buffer's old
+                        # index): the refusal it guards then drops a buffer that has just been posted
+                        tbl = [pp[1] for pp in slot[0][2][2] if pp[0] == 'f']
+                        on_table = any(x[0] == 'loc' and any(pp[0] == 'idx' for pp in x[2]) and any(pp[0] == 'f' and pp[1] in tbl for pp in x[2]) for x in subterms(d))
+                        if on_table:
+                            good = False
+                            det = 'the occupancy test guarding the store looks at slot %s, not at the slot of the token the new add returned' % fmt(d)[:70]
             R.check(good, rule, '%s:store-by-new-token' % b['id'], where, 'recycled buffer stored in the slot of the new token, which is recorded in `%s`' % idx_field,
                     'recycle_rx_buffer breaks the token <-> buffer mapping that receive() relies on: %s' % det)
         if b['name'] == 'can_recv' and not only:
